@@ -275,6 +275,9 @@ class C18Engine(Engine):
             await settle()
 
         _, out, err, error = run_in_fresh_loop(main)
+        if error and error.startswith("LIB:"):
+            fail("library/undocumented-exception-escaped", error[4:])
+            error = None
         if out or err:
             fail("io/printed-on-server-stdio", (out + err)[:300])
         if error and "SystemExit" in error:
